@@ -657,6 +657,8 @@ class Check:
         wall = time.time() - self.t0
         # persist replay files outside the scratch work dir name space (still under out/)
         rdir = mkdir(os.path.join(OUT, "replay", self.prop))
+        for old in glob.glob(os.path.join(rdir, self.tier + "_*")):
+            os.remove(old)                      # replay files of earlier runs of this tier
         final_v = []
         for i, (desc, rp) in enumerate(self.violations):
             dst = os.path.join(rdir, "%s_%d_%s" % (self.tier, i, os.path.basename(rp or "none")))
